@@ -403,6 +403,9 @@ func runHistory(c *collector, tmp string, n int, mode string, h *history) {
 		return
 	}
 	bad := map[string]bool{} // token|req|via currently disagreeing
+	// a token that already disagrees keeps its first culprit: later mutators only re-expose the
+	// same stale cache content under other keys
+	rootCulprit := map[string]string{}
 	comparisons, rounds := 0, 0
 	changed := false
 	for step := 0; step <= len(h.Ops); step++ {
@@ -420,6 +423,10 @@ func runHistory(c *collector, tmp string, n int, mode string, h *history) {
 		rounds++
 		nowBad := map[string]bool{}
 		for _, t := range []string{"t1", "t2"} {
+			culprit := culprit
+			if c0, ok := rootCulprit[t]; ok {
+				culprit = c0
+			}
 			exp := h.Expect[step][t]
 			if step > 0 && (exp.Authn != h.Expect[step-1][t].Authn || fmt.Sprint(exp.D) != fmt.Sprint(h.Expect[step-1][t].D)) {
 				changed = true
@@ -457,6 +464,19 @@ func runHistory(c *collector, tmp string, n int, mode string, h *history) {
 						}
 					}
 				}
+			}
+		}
+		for _, t := range []string{"t1", "t2"} {
+			still := false
+			for k := range nowBad {
+				if strings.HasPrefix(k, t+"|") {
+					still = true
+				}
+			}
+			if !still {
+				delete(rootCulprit, t)
+			} else if _, ok := rootCulprit[t]; !ok {
+				rootCulprit[t] = culprit
 			}
 		}
 		bad = nowBad
